@@ -649,9 +649,13 @@ def tbStmt (k : Nat) (s : TB) (ws : List String) : Option TB :=
       | _ => (tbSend acc.1 sig, acc.2)) (s0, [])
     if s1.ended.isSome then pure s1 else
     -- the child is still running when the signals it sent wake the parent
-    let r := waitTrapLoop tbBody caught s1.st.traps s1.exit
+    let r := waitAfterSignals tbBody caught s1.st.traps s1.exit
     match r.2 with
-    | some (sig, c, _, _) =>
+    | some (_, none, _, d) =>
+      -- SIGINT shortcut (interactive shell): `Interrupt(Some(386))` ends the script of the non-interactive
+      -- read-eval loop the harness uses; the hook after `wait` still runs the other caught traps, with `$?` = 386
+      pure { s1 with st := { s1.st with traps := r.1 }, exit := (d.bind Divert.payload).getD s1.exit, quit := true }
+    | some (sig, some c, _, _) =>
       pure { s1 with st := { s1.st with traps := r.1 }, out := tbLine s1.exit c :: s1.out,
                      exit := 384 + sig }
     | none =>
